@@ -29,7 +29,8 @@ META = {
         ' Round 7: no de-duplication idiom (list(dict.fromkeys(..)), sorted(set(..))) in the parse path; no Twp/Rge pattern fires inside a section list followed by an E/W aliquot; result caches restore everything a miss sets.'
         " Round 8: no in-place sort / reverse of another object's list; every emitted section gives a valid TRS; 'thru.' / 'through.' are range words."
         " Round 10: a loop that walks a list match from the right never reads, by value, a capture that only some repetitions of the pattern set (Python keeps the text of an earlier repetition); the span of the group or a re-search of the rightmost element is required."
-        " Round 11: the switch to the descending fill depends on the order of the two bounds and on nothing else; filling a deque at its left end counts as the reversal; the unpacker's flags are taken over by any method of the finder."),
+        " Round 11: the switch to the descending fill depends on the order of the two bounds and on nothing else; filling a deque at its left end counts as the reversal; the unpacker's flags are taken over by any method of the finder."
+        ' Round 12: sections are added zero-padded; the whitespace normaliser joins nothing across a line break; a left-filled deque reads its newest element at [0]; a missing auxiliary group is undecided.'),
     'families': ['RX-LANG', 'RX-GROUPS', 'RANGE', 'SIB', 'PAIR', 'ROUTE', 'FORWARD', 'DEADPARAM', 'SIB-DEFAULTS'],
 }
 
@@ -66,6 +67,11 @@ def check(ctx):
              ['word_lot_rightmost', 'acreage_notfirst'])):
         gf = common.group_facts(ctx, rv)
         for g in [right, 'intervener'] + extra:
+            if g not in gf and g in extra:
+                # an auxiliary group may have been renamed (with its readers; a read of a group that does
+                # not exist is C03's RX-GROUPS rule): nothing to judge under this name
+                ctx.undecided('RX-GROUPS', f"{name}: group {g}", 'no group of that name (renamed?)')
+                continue
             if g not in gf:
                 ctx.violation('RX-GROUPS', f"{name}: group {g}", f"group {g!r} is missing",
                               key=f"RX-GROUPS|{name}|{g}|missing")
@@ -97,6 +103,9 @@ def check(ctx):
     b = ctx.attempt(_range_algebra, lotf, 'lot')
     ctx.attempt(_descending_fill_condition, secf)
     ctx.attempt(_descending_fill_condition, lotf)
+    ctx.attempt(sections_are_two_digits)
+    from .c04 import whitespace_only      # 'Sec 1-\n5' must not become 'Sec 15'
+    ctx.attempt(whitespace_only)
     if a is not None and b is not None:
         ctx.check(a == b, 'SIB', 'unpack_sections / unpack_lots agree on the range skeleton',
                   f"both: {a}", f"sections: {a}; lots: {b}", key="SIB|unpackers|range")
@@ -193,6 +202,15 @@ def every_match_registers(ctx, rule='EXC'):
                         and isinstance(a_.value.generators[0].iter, ast.Name) and a_.value.generators[0].iter.id.endswith('_list') \
                         and a_.targets[0].id != a_.value.generators[0].iter.id:
                     filt[a_.targets[0].id] = a_
+            # ... or by a loop: `for x in lst: if cond: kept.append(x)` ... `lst = kept`
+            for lp_ in walk_local(fi.node):
+                if isinstance(lp_, ast.For) and isinstance(lp_.iter, ast.Name) and lp_.iter.id.endswith('_list') \
+                        and isinstance(lp_.target, ast.Name):
+                    for c_ in ast.walk(lp_):
+                        if isinstance(c_, ast.Call) and isinstance(c_.func, ast.Attribute) and c_.func.attr == 'append' \
+                                and isinstance(c_.func.value, ast.Name) and c_.args and norm(c_.args[0]) == lp_.target.id \
+                                and guards(c_, stop=lp_) and c_.func.value.id != lp_.iter.id:
+                            filt[c_.func.value.id] = lp_
             for a_ in walk_local(fi.node):
                 if isinstance(a_, ast.Assign) and isinstance(a_.value, ast.Name) and a_.value.id in filt and any(
                         (isinstance(t, ast.Name) and t.id.endswith('_list')) or isinstance(t, ast.Attribute) for t in a_.targets):
@@ -527,12 +545,23 @@ def _siblings_and_resets(ctx):
                        for f, _a, _k in ends)
         same = ends[0][2] == ends[1][2]
         odd = next(((f, a_) for f, a_, k in ends if k != '-1'), None)
+
+        def left_filled(f):     # a list filled at its LEFT end has its newest element at [0]
+            return any(isinstance(c, ast.Call) and isinstance(c.func, ast.Attribute) and c.func.attr in ('appendleft', 'extendleft')
+                       for c in ast.walk(f.node)) or any(
+                isinstance(c, ast.Call) and isinstance(c.func, ast.Attribute) and c.func.attr == 'insert' and c.args
+                and norm(c.args[0]) == '0' for c in ast.walk(f.node))
+        if odd is not None and all((k == '0' and left_filled(f)) or (k == '-1' and not left_filled(f)) for f, _a, k in ends):
+            ctx.ok('SIB', 'both unpackers take the previous number from the end they add to',
+                   '[-1] after append / [0] after appendleft')
+            ends = []
+    if len(ends) == 2:
         ctx.tri(same and ends[0][2] == '-1', (not same) or (appended and odd is not None), 'SIB',
                 'both unpackers take the previous number from the end they append to ([-1])',
                 detail_bad=(f"`{norm(odd[1])}` in {odd[0].qualname} reads the other end of the list: the end of a range is taken from "
                             f"the first item unpacked so far instead of the neighbour, so 'Sec 1 - 3, 5' expands towards 5")
                 if odd else '', key="SIB|unpackers|previous-end", where=common.loc(odd[0], odd[1]) if odd else None)
-    else:
+    elif not any(o.get('construct', '').startswith('both unpackers take the previous number from the end they add to') for o in ctx.obligations):
         ctx.undecided('SIB', 'both unpackers take the previous number from the end they append to', 'previous_* lookups not recognised')
     sf = ctx.repo.func('SecFinder.findall_matching_sec')
     loops = [i for i, st in enumerate(sf.node.body) if isinstance(st, (ast.For, ast.While))]
@@ -638,3 +667,34 @@ def _routes(ctx):
                 detail_bad=f"the staged section list is `{txtv}`: repeated section numbers are dropped / reordered, so "
                            f"fewer tracts are created than sections were written", key="ROUTE|_stage_new_tract|sec",
                 where=common.loc(st, val))
+
+
+def sections_are_two_digits(ctx, rule='TBL'):
+    """Every section number SecUnpacker adds to its list is a two-digit
+    string ('03'): the Twp/Rge/Sec string is built by concatenation and the
+    unpacker of the standard form takes exactly two digits, so '3' gives an
+    error TRS for a perfectly written section."""
+    fi = ctx.repo.func('SecUnpacker.unpack_sections')
+    n = 0
+    for c in walk_local(fi.node):
+        if not (isinstance(c, ast.Call) and isinstance(c.func, ast.Attribute) and c.func.attr in ('append', 'extend', 'appendleft', 'extendleft', 'insert')
+                and isinstance(c.func.value, ast.Name) and 'sec' in c.func.value.id and c.args):
+            continue
+        val = c.args[-1]
+        elt = val.elt if isinstance(val, (ast.GeneratorExp, ast.ListComp)) else val
+        pv = flow.provenance(fi.node, elt)
+        calls = {x.split('.')[-1] for x in flow.prov_calls(pv)}
+        padded = bool(calls & {'rjust', 'zfill', 'format'}) or any(
+            isinstance(x, ast.FormattedValue) and x.format_spec is not None for x in ast.walk(elt)) or any(
+            isinstance(x, ast.JoinedStr) for x in ast.walk(elt) if any(
+                isinstance(y, ast.FormattedValue) and y.format_spec is not None for y in ast.walk(x)))
+        ints_only = 'str' not in calls and not any(isinstance(x, (ast.JoinedStr,)) for x in ast.walk(elt))
+        n += 1
+        if ints_only:
+            ctx.undecided(rule, f"SecUnpacker: `{norm(c)[:50]}` adds a two-digit string", 'numbers are kept as ints here (formatted later)')
+            continue
+        ctx.tri(padded, not padded and 'str' in calls, rule, f"SecUnpacker: `{norm(c)[:50]}` adds a two-digit string",
+                detail_bad=f"`{norm(c)[:70]}` adds `str(number)` without padding: the sections of 'Sec 3 - 6' come out as '3', '4', '5', "
+                           f"and '154n97w' + '3' is not a Twp/Rge/Sec string (error TRS, twprge_error flag) although the text is well formed",
+                key=f"{rule}|SecUnpacker|unpadded|{norm(elt)[:30]}", where=common.loc(fi, c))
+    return n
